@@ -301,7 +301,9 @@ impl Circuit {
                     expected_parties,
                 ));
             }
-            let input_wires: usize = input_gates.iter().sum();
+            let Some(input_wires) = checked_sum(&input_gates) else {
+                return Err(FromBristolError::MalformedLine(line_str));
+            };
             (input_gates, input_wires)
         };
 
@@ -319,7 +321,13 @@ impl Circuit {
                     num_outputs,
                 ));
             }
-            let num_output_wires = gates_per_output.iter().sum::<usize>();
+            let Some(num_output_wires) = checked_sum(&gates_per_output) else {
+                return Err(FromBristolError::MalformedLine(line_str));
+            };
+            // The output wires are the last wires, so there cannot be more of them than wires.
+            if num_output_wires > wires_num {
+                return Err(FromBristolError::MalformedLine(line_str));
+            }
             (vec![0; num_output_wires], num_output_wires)
         };
 
@@ -342,7 +350,7 @@ impl Circuit {
             }
             let num_inputs: usize = parts[0].parse()?;
             let num_outputs: usize = parts[1].parse()?;
-            if num_outputs != 1 || parts.len() != num_inputs + 4 {
+            if num_outputs != 1 || num_inputs.checked_add(4) != Some(parts.len()) {
                 return Err(FromBristolError::MalformedLine(line_str));
             }
             let input_wires: Vec<usize> = parts[2..(2 + num_inputs)]
@@ -367,7 +375,11 @@ impl Circuit {
             }
 
             wires_map[output_wire] = next_wire;
-            next_wire += 1;
+            // Each gate defines a new wire, whose index must still be a usize.
+            let Some(following_wire) = next_wire.checked_add(1) else {
+                return Err(FromBristolError::InvalidWireIndex(next_wire));
+            };
+            next_wire = following_wire;
 
             let gate = match *gate_type {
                 "XOR" | "AND" => {
@@ -399,6 +411,11 @@ impl Circuit {
             output_gates,
         })
     }
+}
+
+/// Sums up the wire counts of a header line, `None` if the sum is not a usize.
+fn checked_sum(counts: &[usize]) -> Option<usize> {
+    counts.iter().try_fold(0usize, |sum, &n| sum.checked_add(n))
 }
 
 /// Parses a line from the Bristol format file and returns a vector of usize.
